@@ -7,10 +7,14 @@ VERIF = Path(__file__).resolve().parent.parent
 import importlib
 
 CLAIMED = {}
+PENDING = {}
 for f in sorted((VERIF / "harness" / "props").glob("c[0-9]*.py")):
     mod = importlib.import_module(f"harness.props.{f.stem}")
     if getattr(mod, "MANIFEST", None):
         m = mod.MANIFEST
+        if m.get("pending"):
+            PENDING[f.stem.upper()] = m["pending"]
+            continue
         CLAIMED[f.stem.upper()] = (m["design_ref"], m["text"], m["note"], m["technique"])
 
 NOT_YET = "check not built yet in this session (planned in DESIGN.md §6); not claimed until its theorems and correspondence exist"
@@ -36,7 +40,7 @@ def main():
                 "technique": tech,
             })
         else:
-            na.append({"property_id": i, "reason": NOT_YET})
+            na.append({"property_id": i, "reason": PENDING.get(i, NOT_YET)})
     m = {
         "version": 1,
         "setup_cmd": "./check --setup",
